@@ -153,7 +153,7 @@ def run_plan(prop, tier, seed, only=None, timeout=None):
     os.makedirs(run, exist_ok=True)
     stream = os.path.join(run, "%s.stream" % prop)
     report = os.path.join(run, "%s.report" % prop)
-    for f in (stream, report, report + ".progress"):
+    for f in (stream, report, report + ".progress", report + ".hang"):
         if os.path.exists(f):
             os.remove(f)
     cmd = [os.path.join(B, "target", "debug", "mtprobe"), prop, "--seed", str(seed), "--tier", tier,
@@ -175,6 +175,8 @@ def run_plan(prop, tier, seed, only=None, timeout=None):
                 samples.append(line[7:])
             elif line.startswith("DONE"):
                 done = True
+    if os.path.exists(report + ".hang"):
+        fails += [l.rstrip("\n") for l in open(report + ".hang", errors="replace") if l.startswith("FAIL ")]
     progress = None
     if os.path.exists(report + ".progress"):
         ls = open(report + ".progress").read().split()
@@ -317,7 +319,7 @@ def main():
 
     r = run_plan(prop, tier, seed)
     items = r["bads"] + r["fails"]
-    if not r["done"]:
+    if not r["done"] and not any("did not return within" in x for x in r["fails"]):
         # the child process died (abort, stack overflow, kill) or hung: an input on which processing does not return
         items.append("FAIL %s id=%s implementation process %s while running the plan (last progress marker: case %s)"
                      % (prop if prop != "C01" else "C01", r["progress"], "timed out" if r["rc"] == 124 else "died with status %s" % r["rc"], r["progress"]))
